@@ -995,7 +995,9 @@ impl Translator {
                 let else_label = make_label("else");
                 let end_label = make_label("endif");
                 self.emit(st, Instr::JumpIfFalse(else_label.clone()));
-                self.translate_stmt(then_block, true, offset_table, mono, st);
+                // without an `else` the `if` is void: the value of its block, if any, is dropped
+                let yields_block_value = else_block.is_some();
+                self.translate_stmt(then_block, yields_block_value, offset_table, mono, st);
                 self.emit(st, Instr::Jump(end_label.clone()));
                 self.emit(st, Line::Label(else_label));
                 if let Some(else_block) = else_block {
